@@ -58,3 +58,14 @@ def maybe_warm(nas, xs, seed, allow_export=True):
         ctx.cls('neutral-prefix:' + op)
     ctx.count('neutral_prefixes')
     return seq
+
+
+def example_batch(seed):
+    """Number of samples of the example handed to the conversion (`input_example`): 1 in half of the
+    cases, 2..4 otherwise.  The example only fixes shapes - costs are per inference, masks and
+    exported sizes cannot depend on how many samples it holds - so every oracle stays as it is."""
+    b = [1, 2, 1, 3, 1, 4][(int(seed) // 5) % 6]
+    ctx = _state['ctx']
+    if ctx is not None:
+        ctx.cls('conversion-example-batch:%d' % b)
+    return b
